@@ -1,2 +1,298 @@
-(* Proofs/NewickProofsB.v *)
+(* Proofs/NewickProofsB.v — C05, names and tokens: nameFromText inverts
+   nameToText for every byte string, and a written name is exactly one token. *)
 From Bio Require Import Base.
+From Bio.Model Require Import Newick.
+From Bio.Spec Require Import NewickSpec.
+
+(* ---- name_from_text (name_to_text s) = s -------------------------------- *)
+Lemma dbl_nil_inv s : dbl_quotes s = [] -> s = [].
+Proof. destruct s as [|c r]; [reflexivity|]. simpl. destruct (c =? 39); discriminate. Qed.
+
+Lemma undbl_cons_other c l : (c =? 39) = false -> undbl_quotes (c :: l) = c :: undbl_quotes l.
+Proof.
+  intros H. destruct l as [|d l']; [reflexivity|].
+  change (undbl_quotes (c :: d :: l'))
+    with (if (c =? 39) && (d =? 39) then 39 :: undbl_quotes l' else c :: undbl_quotes (d :: l')).
+  rewrite H. reflexivity.
+Qed.
+
+Lemma undbl_dbl : forall s, undbl_quotes (dbl_quotes s) = s.
+Proof.
+  induction s as [|c r IH]; [reflexivity|].
+  cbn [dbl_quotes]. destruct (c =? 39) eqn:E.
+  - apply N.eqb_eq in E. subst c.
+    change (undbl_quotes (39 :: 39 :: dbl_quotes r)) with (39 :: undbl_quotes (dbl_quotes r)).
+    rewrite IH. reflexivity.
+  - rewrite (undbl_cons_other c _ E), IH. reflexivity.
+Qed.
+
+Lemma trigger_false_inv c : name_trigger c = false ->
+  (c =? 40) = false /\ (c =? 41) = false /\ (c =? 44) = false /\ (c =? 58) = false
+  /\ (c =? 59) = false /\ (c =? 39) = false /\ (c =? 95) = false /\ (c =? 9) = false
+  /\ (c =? 10) = false /\ (c =? 13) = false.
+Proof.
+  unfold name_trigger. rewrite !Bool.orb_false_iff. tauto.
+Qed.
+
+Lemma existsb_false_cons {A} (f : A -> bool) a l :
+  existsb f (a :: l) = false -> f a = false /\ existsb f l = false.
+Proof. simpl. apply Bool.orb_false_iff. Qed.
+
+Lemma map_byte_back : forall s, existsb name_trigger s = false ->
+  map_byte 95 32 (map_byte 32 95 s) = s.
+Proof.
+  induction s as [|c r IH]; intros H; [reflexivity|].
+  apply existsb_false_cons in H. destruct H as [Hc Hr].
+  apply trigger_false_inv in Hc. destruct Hc as (_ & _ & _ & _ & _ & _ & H95 & _).
+  unfold map_byte in *. cbn [map]. rewrite (IH Hr). f_equal.
+  destruct (c =? 32) eqn:E32.
+  - apply N.eqb_eq in E32. subst c. reflexivity.
+  - rewrite H95. reflexivity.
+Qed.
+
+Lemma unquoted_text_not_quoted s : existsb name_trigger s = false ->
+  quoted (map_byte 32 95 s) = false.
+Proof.
+  destruct s as [|c r]; intros H; [reflexivity|].
+  apply existsb_false_cons in H. destruct H as [Hc _].
+  apply trigger_false_inv in Hc. destruct Hc as (_ & _ & _ & _ & _ & H39 & _).
+  unfold quoted, map_byte. cbn [map hd].
+  destruct (c =? 32).
+  - cbn [N.eqb Pos.eqb]. rewrite Bool.andb_false_r. reflexivity.
+  - rewrite H39, Bool.andb_false_r. reflexivity.
+Qed.
+
+Lemma quoted_text_quoted s : quoted (39 :: dbl_quotes s ++ [39]) = true.
+Proof.
+  unfold quoted. cbn [hd]. rewrite app_comm_cons, last_last.
+  rewrite app_length. cbn [length]. rewrite Nat.add_1_r. reflexivity.
+Qed.
+
+Lemma name_roundtrip : forall s, name_from_text (name_to_text s) = s.
+Proof.
+  intros s. unfold name_to_text, name_from_text.
+  destruct (existsb name_trigger s) eqn:E.
+  - rewrite quoted_text_quoted. cbn [tl]. rewrite removelast_last. apply undbl_dbl.
+  - rewrite (unquoted_text_not_quoted s E). apply map_byte_back. exact E.
+Qed.
+
+Lemma name_text_nil s : name_to_text s = [] <-> s = [].
+Proof.
+  unfold name_to_text. destruct (existsb name_trigger s) eqn:E.
+  - split; [discriminate|]. intros ->. discriminate E.
+  - unfold map_byte. destruct s; cbn [map]; split; intros H; try reflexivity; discriminate H.
+Qed.
+
+(* ---- tokens ------------------------------------------------------------- *)
+(* bytes that are appended to the buffer outside quotes *)
+Definition plain (b : N) : bool := negb (b =? 39) && negb (is_punct b) && negb (is_ws b).
+
+Lemma tok_plain : forall (w buf s : list N) tm, Forall (fun b => plain b = true) w ->
+  tok_loop false false buf (w ++ s) tm = tok_loop false false (rev w ++ buf) s tm.
+Proof.
+  induction w as [|b w IH]; intros buf s tm H; [reflexivity|].
+  inversion H as [|? ? Hb Hw]; subst.
+  unfold plain in Hb. rewrite !Bool.andb_true_iff, !Bool.negb_true_iff in Hb.
+  destruct Hb as [[H39 Hp] Hws].
+  cbn [app tok_loop]. rewrite H39, Hp, Hws. rewrite (IH _ _ _ Hw).
+  cbn [rev]. rewrite <- app_assoc. reflexivity.
+Qed.
+
+Lemma punct_not_quote x : is_punct x = true -> (x =? 39) = false.
+Proof.
+  unfold is_punct. rewrite !Bool.orb_true_iff.
+  intros [[[[H|H]|H]|H]|H]; apply N.eqb_eq in H; subst; reflexivity.
+Qed.
+
+Lemma next_token_punct x r tm : is_punct x = true -> next_token (x :: r) tm = TokOk [x] r.
+Proof.
+  intros H. unfold next_token. cbn [tok_loop]. rewrite (punct_not_quote x H), H. reflexivity.
+Qed.
+
+Lemma nonempty_rev_app (w buf : list N) : w <> [] -> nonempty (rev w ++ buf) = true.
+Proof.
+  intros Hw. destruct (rev w) eqn:E.
+  - exfalso. apply Hw. rewrite <- (rev_involutive w), E. reflexivity.
+  - reflexivity.
+Qed.
+
+(* an unquoted word followed by punctuation *)
+Lemma tok_word_punct (w : list N) (x : N) (r : list N) tm :
+  Forall (fun b => plain b = true) w -> w <> [] -> is_punct x = true ->
+  next_token (w ++ x :: r) tm = TokOk w (x :: r).
+Proof.
+  intros Hw Hne Hx. unfold next_token. rewrite (tok_plain w [] (x :: r) tm Hw).
+  cbn [tok_loop]. rewrite (punct_not_quote x Hx), Hx, (nonempty_rev_app w [] Hne).
+  rewrite app_nil_r, rev_involutive. reflexivity.
+Qed.
+
+Lemma tok_word_eof (w : list N) :
+  Forall (fun b => plain b = true) w -> w <> [] -> next_token w TEOF = TokOk w [].
+Proof.
+  intros Hw Hne. unfold next_token. rewrite <- (app_nil_r w) at 1.
+  rewrite (tok_plain w [] [] TEOF Hw). cbn [tok_loop].
+  rewrite (nonempty_rev_app w [] Hne), app_nil_r, rev_involutive. reflexivity.
+Qed.
+
+(* inside quotes: the doubled text is swallowed and leaves afterQuote = false *)
+Lemma tok_in_quotes : forall s buf rest tm,
+  tok_loop true false buf (dbl_quotes s ++ rest) tm
+  = tok_loop true false (rev (dbl_quotes s) ++ buf) rest tm.
+Proof.
+  induction s as [|c r IH]; intros buf rest tm; [reflexivity|].
+  cbn [dbl_quotes]. destruct (c =? 39) eqn:E.
+  - cbn [app tok_loop N.eqb Pos.eqb negb]. rewrite IH. cbn [rev].
+    rewrite <- !app_assoc. reflexivity.
+  - cbn [app tok_loop]. rewrite E, IH. cbn [rev]. rewrite <- app_assoc. reflexivity.
+Qed.
+
+Lemma rev_quoted_buf (q : bytes) : rev (39 :: rev q ++ [39]) = 39 :: q ++ [39].
+Proof.
+  cbn [rev]. rewrite rev_app_distr, rev_involutive. reflexivity.
+Qed.
+
+Lemma tok_quoted_next s x r tm : (x =? 39) = false ->
+  next_token ((39 :: dbl_quotes s ++ [39]) ++ x :: r) tm
+  = TokOk (39 :: dbl_quotes s ++ [39]) (x :: r).
+Proof.
+  intros Hx. unfold next_token. cbn [app tok_loop N.eqb Pos.eqb nonempty].
+  rewrite <- app_assoc. rewrite tok_in_quotes.
+  cbn [app tok_loop N.eqb Pos.eqb negb]. rewrite Hx.
+  rewrite rev_quoted_buf. reflexivity.
+Qed.
+
+Lemma tok_quoted_eof s :
+  next_token (39 :: dbl_quotes s ++ [39]) TEOF = TokOk (39 :: dbl_quotes s ++ [39]) [].
+Proof.
+  unfold next_token. cbn [tok_loop N.eqb Pos.eqb nonempty].
+  rewrite tok_in_quotes. cbn [tok_loop N.eqb Pos.eqb negb nonempty].
+  rewrite rev_quoted_buf. reflexivity.
+Qed.
+
+Lemma unquoted_text_plain : forall s, existsb name_trigger s = false ->
+  Forall (fun b => plain b = true) (map_byte 32 95 s).
+Proof.
+  induction s as [|c r IH]; intros H; [constructor|].
+  apply existsb_false_cons in H. destruct H as [Hc Hr].
+  apply trigger_false_inv in Hc.
+  destruct Hc as (H40 & H41 & H44 & H58 & H59 & H39 & H95 & H9 & H10 & H13).
+  unfold map_byte. cbn [map]. constructor; [|exact (IH Hr)].
+  destruct (c =? 32) eqn:E32; [reflexivity|].
+  unfold plain, is_punct, is_ws. rewrite H39, H40, H41, H44, H58, H59, E32, H9, H10, H13.
+  reflexivity.
+Qed.
+
+(* the written name is exactly one token, before punctuation and at EOF *)
+Lemma name_one_token s x r tm : name_to_text s <> [] -> is_punct x = true ->
+  next_token (name_to_text s ++ x :: r) tm = TokOk (name_to_text s) (x :: r).
+Proof.
+  intros Hne Hx. unfold name_to_text in *. destruct (existsb name_trigger s) eqn:E.
+  - apply tok_quoted_next. apply punct_not_quote. exact Hx.
+  - apply tok_word_punct; [apply unquoted_text_plain; exact E | exact Hne | exact Hx].
+Qed.
+
+Lemma name_one_token_eof s : name_to_text s <> [] ->
+  next_token (name_to_text s) TEOF = TokOk (name_to_text s) [].
+Proof.
+  intros Hne. unfold name_to_text in *. destruct (existsb name_trigger s) eqn:E.
+  - apply tok_quoted_eof.
+  - apply tok_word_eof; [apply unquoted_text_plain; exact E | exact Hne].
+Qed.
+
+(* ---- words are not punctuation tokens ------------------------------------ *)
+Definition is_word (tok : bytes) : bool :=
+  match tok with [] => false | b :: _ => negb (is_punct b) end.
+
+Lemma word_not_punct tok : is_word tok = true ->
+  beqb tok [40] = false /\ beqb tok [41] = false /\ beqb tok [44] = false
+  /\ beqb tok [58] = false /\ beqb tok [59] = false.
+Proof.
+  destruct tok as [|b r]; [discriminate|]. cbn [is_word]. rewrite Bool.negb_true_iff.
+  unfold is_punct. rewrite !Bool.orb_false_iff. intros ((((H40 & H41) & H44) & H58) & H59).
+  cbn [beqb]. rewrite H40, H41, H44, H58, H59. repeat split; reflexivity.
+Qed.
+
+Lemma name_text_word s : name_to_text s <> [] -> is_word (name_to_text s) = true.
+Proof.
+  unfold name_to_text. destruct (existsb name_trigger s) eqn:E; [reflexivity|].
+  intros Hne. pose proof (unquoted_text_plain s E) as Hp.
+  destruct (map_byte 32 95 s) as [|b r]; [contradiction|].
+  inversion Hp as [|? ? Hb _]; subst. cbn [is_word]. unfold plain in Hb.
+  rewrite !Bool.andb_true_iff in Hb. tauto.
+Qed.
+
+Lemma clean_delims_plain : forall t, clean delims t -> Forall (fun b => plain b = true) t.
+Proof.
+  intros t H. unfold clean in H. eapply Forall_impl; [|exact H].
+  intros b Hb. unfold memb, delims in Hb. cbn [existsb] in Hb.
+  rewrite !Bool.orb_false_iff in Hb.
+  destruct Hb as (H40 & H41 & H44 & H58 & H59 & H39 & H32 & H9 & H10 & H13 & _).
+  unfold plain, is_punct, is_ws. rewrite H39, H40, H41, H44, H58, H59, H32, H9, H10, H13.
+  reflexivity.
+Qed.
+
+Lemma plain_word t : Forall (fun b => plain b = true) t -> t <> [] -> is_word t = true.
+Proof.
+  intros Hp Hne. destruct t as [|b r]; [contradiction|].
+  inversion Hp as [|? ? Hb _]; subst. cbn [is_word]. unfold plain in Hb.
+  rewrite !Bool.andb_true_iff in Hb. tauto.
+Qed.
+
+(* ---- whitespace ----------------------------------------------------------- *)
+Lemma ws_not_quote_punct b : is_ws b = true -> (b =? 39) = false /\ is_punct b = false.
+Proof.
+  unfold is_ws. rewrite !Bool.orb_true_iff.
+  intros [[[H|H]|H]|H]; apply N.eqb_eq in H; subst; split; reflexivity.
+Qed.
+
+Lemma next_token_skip_ws : forall ws s tm, ws_string ws ->
+  next_token (ws ++ s) tm = next_token s tm.
+Proof.
+  unfold next_token. induction ws as [|b ws IH]; intros s tm H; [reflexivity|].
+  inversion H as [|? ? Hb Hws]; subst. destruct (ws_not_quote_punct b Hb) as [H39 Hp].
+  cbn [app tok_loop]. rewrite H39, Hp, Hb. cbn [nonempty]. apply IH. exact Hws.
+Qed.
+
+Lemma next_token_ws_eof ws : ws_string ws -> next_token ws TEOF = TokEOF.
+Proof.
+  intros H. rewrite <- (app_nil_r ws). rewrite (next_token_skip_ws ws [] TEOF H). reflexivity.
+Qed.
+
+(* ---- every token consumes input -------------------------------------------- *)
+Lemma tok_loop_consumes tm tok rest : forall s quote afterq buf,
+  (quote = true -> buf <> []) ->
+  tok_loop quote afterq buf s tm = TokOk tok rest ->
+  (length rest <= length s)%nat /\ (buf = [] -> (length rest < length s)%nat).
+Proof.
+  induction s as [|b r IH]; intros quote afterq buf Hinv H.
+  - cbn [tok_loop] in H. destruct tm; [|discriminate].
+    destruct buf; cbn [nonempty] in H; [discriminate|]. inversion H; subst.
+    split; [apply Nat.le_refl | discriminate].
+  - cbn [tok_loop] in H. cbn [length]. destruct quote.
+    + specialize (Hinv eq_refl).
+      destruct (b =? 39).
+      * apply IH in H; [|discriminate]. destruct H as [H _]. split; [lia|intros; lia].
+      * destruct afterq.
+        -- inversion H; subst. split; [apply Nat.le_refl | contradiction].
+        -- apply IH in H; [|discriminate]. destruct H as [H _]. split; [lia|intros; lia].
+    + destruct (b =? 39).
+      * destruct buf; cbn [nonempty] in H; [|discriminate].
+        apply IH in H; [|discriminate]. destruct H as [H _]. split; [lia|intros; lia].
+      * destruct (is_punct b).
+        -- destruct buf; cbn [nonempty] in H; inversion H; subst.
+           ++ split; [lia|intros; lia].
+           ++ split; [apply Nat.le_refl | discriminate].
+        -- destruct (is_ws b).
+           ++ destruct buf; cbn [nonempty] in H.
+              ** apply IH in H; [|discriminate]. destruct H as [H1 H2].
+                 specialize (H2 eq_refl). split; [lia|intros; lia].
+              ** inversion H; subst. split; [lia | discriminate].
+           ++ apply IH in H; [|discriminate]. destruct H as [H _]. split; [lia|intros; lia].
+Qed.
+
+Lemma next_token_consumes s tm tok rest :
+  next_token s tm = TokOk tok rest -> (length rest < length s)%nat.
+Proof.
+  intros H. unfold next_token in H.
+  apply tok_loop_consumes in H; [|discriminate]. destruct H as [_ H]. exact (H eq_refl).
+Qed.
